@@ -177,7 +177,9 @@ def generate(repo):
             if not re.search(r"pub enum " + name + r"\b", rs):
                 raise SchemaError(f"Rust enum {name} not found")
             rvars = re.findall(r"^\s*(\w+)\(\w+\)\s*=\s*(\d+)", re.search(r"pub enum " + name + r"\s*\{(.*?)\n\}", rs, re.S).group(1), re.M)
-            if [v for v, _ in rvars] != [v for v, _, _ in enums[name]]:
+            # same SET of enumerators (else the two cannot be related at all); their ORDER and numbering
+            # are what the obligations compare: schema position vs the `= N` the Rust enum encodes
+            if sorted(v for v, _ in rvars) != sorted(v for v, _, _ in enums[name]):
                 raise SchemaError(f"{name}: enumerators differ between schema and Rust: {rvars}")
             out.append(f"pub open spec fn enc_{name}(v: {name}) -> Seq<u8> {{\n    match v {{\n" + "\n".join(arms) + "\n    }\n}")
             # the value the unsafe `*<*const _>::from(self).cast::<u8>()` reads: the `= N` written
